@@ -32,6 +32,7 @@ func init() {
 			{ID: "C05-R6", Title: "script values are not rendered with fmt's default formatting", Floor: 1, Run: sprintOfObjects},
 			{ID: "C05-R7", Title: "module constructors hand out fresh objects: no state shared between evaluations (shared with C11-R2)", Floor: 10, Run: c11r2},
 			{ID: "C05-R8", Title: "collected map keys are sorted at once", Floor: 1, Run: collectedMapKeysAreSorted},
+			{ID: "C05-R9", Title: "reflected map walks are order independent", Floor: 0, Run: reflectedMapWalksAreOrderIndependent},
 		},
 	})
 }
